@@ -207,7 +207,7 @@ func execCount(env Env, t *world.TaskSpec, out *Outcome) {
 			out.Summary = "count:error"
 			return
 		}
-		if pb.NbVars != rp.N {
+		if pb.NbVars != rp.N && pb.Status != solver.Unsat {
 			// the oracle counts over the declared variables; a route that lets the library
 			// infer fewer variables than the spec declares is a generator error, not a finding
 			out.fail("TOOL", "nbvars-mismatch", "library sees %d variables, spec declares %d (route %s)", pb.NbVars, rp.N, t.Route)
